@@ -123,6 +123,14 @@ def run(ctx):
                                  {"op": "new_service", "s": "s1", "ctx": "driver", "force": True}, {"op": "adopt", "p": "q", "ctx": "thread", "force": True}, {"op": "reaccept_start"},
                                  {"op": "wait_start", "p": "q", "force": True}, {"op": "wait_start", "p": "s1", "force": True}, {"op": "step", "p": "s1", "force": True}, {"op": "step", "p": "q", "force": True},
                                  {"op": "polls", "n": 2, "force": True}], "shape": "targeted-restart-after-graceful-stop"})
+    # adoption from inside a thread payload that runs a PRIVATE event loop of its own (asyncio
+    # or trio): the payload still goes to the runtime's loop of the requested flavour
+    for own in ("ownloop", "owntrio"):
+        for late in scen.FLAVS:
+            extra.append({"seed": ctx.seed, "jitter": 0.0, "payloads": {"h1": {"flavour": "threading"}, "c1": {"flavour": "trio"}, "late": {"flavour": late, "args": [2]}, "late2": {"flavour": late}},
+                          "script": [{"op": "adopt", "p": "h1"}, {"op": "adopt", "p": "c1"}, {"op": "accept"}, {"op": "wait_running"}, {"op": "wait_start", "p": "h1"}, {"op": "wait_start", "p": "c1"},
+                                     {"op": "adopt", "p": "late", "ctx": own + ":h1"}, {"op": "wait_start", "p": "late"}, {"op": "step", "p": "late"}, {"op": "adopt", "p": "late2", "ctx": own + ":h1"}, {"op": "wait_start", "p": "late2"}, {"op": "step", "p": "c1"}, {"op": "polls", "n": 2}],
+                          "shape": "targeted-adopt-from-private-" + ("asyncio" if own == "ownloop" else "trio") + "-loop"})
     # a burst of adoptions from inside one synchronous step of a coroutine payload (nothing
     # can drain a hand-over buffer meanwhile): "for all numbers of payloads"
     for f, n in (("trio", 270), ("asyncio", 60)):
